@@ -461,6 +461,61 @@ def decode_terms(ck, rule):
                             else:
                                 ext_unsigned += 1
                                 ck.check(okc, rule, f, "a short unsigned string is zero-extended to n_word characters", "pads with %s * (%s)" % (ch, cnt.show()), s)
+    if ext_signed == 0 or ext_unsigned == 0:
+        # path-based: on every path where the string is shorter than the word, the final x is PAD * (n_word - len(x)) + x with PAD = x[0] when the
+        # path has signed true and '0' when it has signed false (named locals, a conditional fill character and merged branches are seen through)
+        ext_signed = ext_unsigned = 0
+
+        class _Abs(ast.NodeTransformer):
+            """replace every occurrence of the cleaned input string (the value x had before it was extended) by the name x"""
+            def __init__(self, key):
+                self.key = key
+
+            def visit(self, node):
+                if isinstance(node, ast.expr) and ast.dump(node) == self.key:
+                    return ast.Name(id="x", ctx=ast.Load())
+                return self.generic_visit(node)
+        import copy as _cp
+        for pf in fpaths(prog, f):
+            if pf.end == "raise":
+                continue
+            xs = [st for st in pf.stores if st.path == "x" and st.depth == 0]
+            ext = [st for st in xs if isinstance(st.value, ast.BinOp) and isinstance(st.value.op, ast.Add) and isinstance(st.value.left, ast.BinOp) and isinstance(st.value.left.op, ast.Mult)]
+            if not ext:
+                continue
+            st_e = ext[-1]
+            prev = [st for st in xs if st is not st_e and pf.stores.index(st) < pf.stores.index(st_e)]
+            key = ast.dump(prev[-1].value) if prev else ast.dump(ast.Name(id="x", ctx=ast.Load()))
+            ab = lambda e: _Abs(key).visit(_cp.deepcopy(e))
+            lits = [(ab(t), pol) for t, pol in path_literals(pf.guards)]
+            pf = type("P", (), {"env": {"x": ab(st_e.value)}, "ret_stmt": st_e.stmt, "guards": pf.guards})()
+            short = any(pol and isinstance(t, ast.Compare) and len(t.ops) == 1 and isinstance(t.ops[0], ast.Lt) and src(t.left) == "len(x)" and dotted(t.comparators[0]) == "n_word" for t, pol in lits) or \
+                any(pol and isinstance(t, ast.Compare) and len(t.ops) == 1 and isinstance(t.ops[0], ast.Gt) and dotted(t.left) == "n_word" and src(t.comparators[0]) == "len(x)" for t, pol in lits)
+            if not short:
+                continue
+            sg = [pol for t, pol in lits if dotted(t) == "signed"]
+            if not sg:
+                continue
+            xf = pf.env.get("x")
+            okc = False
+            shown = src(xf)[:60] if xf is not None else None
+            if isinstance(xf, ast.BinOp) and isinstance(xf.op, ast.Add) and dotted(xf.right) == "x" and isinstance(xf.left, ast.BinOp) and isinstance(xf.left.op, ast.Mult):
+                a, b = xf.left.left, xf.left.right
+                pad, cnt_e = (a, b) if (const_str(a) is not None or isinstance(a, ast.Subscript)) else (b, a)
+                try:
+                    cnt = mkterm(cnt_e, rename=lambda d: d)
+                    want = "x[0]" if sg[-1] else "'0'"
+                    okc = src(pad) == want and cnt == Term.var("n_word") - fapp_len()
+                    shown = "pads with %s * (%s)" % (src(pad), cnt.show())
+                except NotATerm:
+                    pass
+            if sg[-1]:
+                ext_signed += 1
+                ck.check(okc, rule, f, "a short signed string is sign-extended with its own first bit to n_word characters", "%s" % shown, pf.ret_stmt,
+                         "negative values written with fewer bits decode as positive")
+            else:
+                ext_unsigned += 1
+                ck.check(okc, rule, f, "a short unsigned string is zero-extended to n_word characters", "%s" % shown, pf.ret_stmt)
     # decode: val = -1*((1 << (n_word-1)) - val) under x[0] == '1'
     for n in ast.walk(f.node):
         if isinstance(n, ast.If) and isinstance(n.test, ast.Compare) and src(n.test.left) == "x[0]" and const_str(n.test.comparators[0]) == "1":
@@ -524,13 +579,18 @@ def parse_dispatch(ck, rule):
     for pf in fpaths(prog, f):
         for ce in pf.calls:
             c = ce.call                       # substituted: a parser chosen by a conditional expression / table is the chosen function here
-            if ce.depth:
+            from ..pinned import PINNED_FUNCS as _PF
+            in_helper = bool(ce.depth) and ce.ctx is not None and ce.ctx.qualname not in _PF
+            if ce.depth and not in_helper:
                 continue
-            r = prog.resolve_call(f, c)
+            r = prog.resolve_call(ce.ctx or f, c)
             if r in table and table[r] is not None:
                 seen.add(r)
                 # arguments as written (the string itself may have been rewritten before, e.g. x.replace('h', 'x'))
                 got = tuple(dotted(a) for a in ce.raw.args[:len(table[r])])
+                if in_helper:
+                    # inside a helper extracted from str2num: the substituted arguments are str2num's own names again
+                    got = ("x",) + tuple(dotted(a) for a in ce.call.args[1:len(table[r])])
                 if (r, got) in done:
                     continue
                 done.add((r, got))
@@ -538,8 +598,9 @@ def parse_dispatch(ck, rule):
     ck.check(len(seen) == 4, rule, f, "str2num dispatches to the four bin/hex parsers", "reaches only %s" % sorted(seen), f.node)
     # selectors
     sel = {"b": False, "x": False}
-    for n in ast.walk(f.node):
-        if isinstance(n, ast.Compare) and len(n.ops) == 1 and isinstance(n.ops[0], ast.In) and const_str(n.left) in sel and src(n.comparators[0]) == "x[:2]":
+    for _g, n in walk_closure(prog, f):
+        if isinstance(n, ast.Compare) and len(n.ops) == 1 and isinstance(n.ops[0], ast.In) and const_str(n.left) in sel and isinstance(n.comparators[0], ast.Subscript) \
+                and isinstance(n.comparators[0].value, ast.Name) and src(n.comparators[0].slice) == ":2":
             sel[const_str(n.left)] = True
     ck.check(all(sel.values()), rule, f, "binary strings are recognised by 'b' and hex strings by 'x' within the first two characters", "selectors found: %s" % sel, f.node,
              "prefixed strings are taken for decimals")
@@ -603,7 +664,7 @@ def decimal_arm(ck, rule):
     seen = set()
     for pf in fpaths(prog, f):
         for st in pf.stores:
-            if st.path != "val" or st.depth:
+            if st.path != "val":
                 continue
             v = st.raw_value
             if not isinstance(v, ast.Call) or dotted(v.func) not in ("int", "float", "complex", "round", "np.floor", "np.trunc", "math.floor", "math.trunc"):
